@@ -30,7 +30,7 @@ def source_thresholds():
 
 def make_data(rng, npr, n, kmax):
     """random float32 cloud whose (kmax+4)-nearest-neighbour rows have no near-ties (the neighbour sets are then unambiguous)"""
-    for _ in range(50):
+    for _ in range(5000):      # (a cloud of 60 points has a near-tie somewhere in most draws: ~2-10% of the draws are accepted)
         dim = rng.randint(3, 6)
         X = (npr.normal(size=(n, dim)) * 10 ** rng.uniform(-1, 1)).astype(np.float32)
         idx, dist = exact_knn(X)
